@@ -201,12 +201,8 @@ Theorem C06_refuted_K_rest_nil_struct_ptr :
 Proof. exact refuted_nil_struct_ptr. Qed.
 Print Assumptions C06_refuted_K_rest_nil_struct_ptr.
 
-(* K_rest_body_no_struct, K_rest_ptr_map: the generator accepts the method and emits code that is
-   not valid Go (wf_mspec excludes both shapes) *)
-Theorem C06_refuted_K_rest_body_no_struct :
-  exists d, cook_method ido E0 m_nobody = COk d /\ static_ok d = false.
-Proof. exact refuted_body_no_struct. Qed.
-Print Assumptions C06_refuted_K_rest_body_no_struct.
+(* K_rest_ptr_map: the generator accepts the method and emits code that is not valid Go (wf_mspec
+   excludes the shape) *)
 Theorem C06_refuted_K_rest_ptr_map :
   exists d, cook_method ido E0 m_ptrmap = COk d /\ static_ok d = false.
 Proof. exact refuted_ptr_map. Qed.
@@ -225,10 +221,20 @@ Theorem C06_refuted_K_rest_subst_rescan :
 Proof. exact refuted_subst_rescan. Qed.
 Print Assumptions C06_refuted_K_rest_subst_rescan.
 
-(* K_rest_two_maps: the first of two map arguments never reaches the query *)
-Theorem C06_refuted_K_rest_two_maps :
-  exists d r, cook_method ido E0 m_twomaps = COk d /\
-    exec fmt_demo join_demo json_demo noq idd [] d "B" [("a", AMap [("ka", SStr "1")]); ("b", AMap [("kb", SStr "2")])] = OSent r /\
-    rq_query r = Some [("kb", "2")].
-Proof. exact refuted_two_maps. Qed.
-Print Assumptions C06_refuted_K_rest_two_maps.
+(* ------------------------------------------------------ repaired findings *)
+(* K_rest_body_no_struct (fixed): an accepted POST/PUT/PATCH method always has its body parameter;
+   the former witness is refused with a diagnostic *)
+Theorem C06_accepted_body_verb_has_body :
+  forall sigma E m d, cook_method sigma E m = COk d -> body_verb (d_verb d) = true -> d_body d <> None.
+Proof. exact cook_ok_has_body. Qed.
+Print Assumptions C06_accepted_body_verb_has_body.
+Example C06_fixed_K_rest_body_no_struct :
+  cook_method ido E0 m_nobody = CFatal "a body verb needs a struct parameter as request body".
+Proof. exact body_verb_without_struct_refused. Qed.
+(* K_rest_two_maps (fixed): a second map parameter of a GET/DELETE method is refused *)
+Example C06_fixed_K_rest_two_maps : cook_method ido E0 m_twomaps = CFatal "ambiguous query map binding".
+Proof. exact second_map_refused. Qed.
+(* K_rest_header_value_trim (fixed): directive values keep leading non-word characters *)
+Example C06_fixed_K_rest_header_value_trim :
+  parse_headers (doc_lines ["shoot: headers={Accept:*/*},{X-Sig: (a)}"]) = [("Accept", "*/*"); ("X-Sig", "(a)")].
+Proof. exact header_value_kept. Qed.
